@@ -1,4 +1,5 @@
 """C06 - a noise-free copy of an interior reference region is placed exactly."""
+from vf import core
 from vf import e2e, gen, hooks, oracles, pipeline
 from vf.core import Shard, rng_for
 
@@ -118,7 +119,7 @@ def run_shard(spec):
         rng = rng_for('C06', spec['seed'], spec['shard'], i)
         case = make_case(rng)
         case['gen'] = [spec['seed'], spec['shard'], i]
-        judge(case, spec['workdir'], sh)
+        core.isolated(judge, sh, case, spec['workdir'])
     return sh
 
 
